@@ -39,6 +39,9 @@ pub struct FvCase {
     pub dirty_trailer: Option<usize>,
     pub accept: bool,
     pub rep: u8,
+    /// Some(budget): pass the aux buffer key generation would write into a buffer of that size
+    #[serde(default)]
+    pub aux_budget: Option<u32>,
 }
 
 fn hname(h: HashId) -> &'static str {
@@ -95,7 +98,14 @@ pub fn check_fv(pool: &ProbePool, ov: &[(usize, u32, u32)], c: &FvCase) -> Verdi
         }
     }
     let negative = too_short || c.dirty_trailer.is_some();
-    let r = pool.call(&json!({"op": "sign_mut", "hash": hname(c.hash), "sk": gen::hex(&blob), "msg": gen::hex(&msg), "accept": c.accept}));
+    let aux: serde_json::Value = match c.aux_budget {
+        Some(b) => match crate::refmodel::aux::expected_aux(&Model::rfc(c.hash), c.levels[0].0, c.levels[0].1, &seed, b as usize) {
+            Some(v) => json!(gen::hex(&v)),
+            None => json!(gen::hex(&vec![0u8; b as usize])),
+        },
+        None => serde_json::Value::Null,
+    };
+    let r = pool.call(&json!({"op": "sign_mut", "hash": hname(c.hash), "sk": gen::hex(&blob), "msg": gen::hex(&msg), "accept": c.accept, "aux": aux}));
     let what = format!("{} {} counter {} message {} B under build {}", c.hash.name(), levels_str(&c.levels), counter, c.len, c.config);
     let cls = format!("{}|{}|w{}|{}|{}", c.config, c.hash.name(), c.levels.last().unwrap().0, if negative { if too_short { "too-short" } else { "dirty-trailer" } } else if counter + 1 == total { "last-leaf" } else { "positive" }, if c.accept { "accept" } else { "reject" });
     match r["r"].as_str().unwrap_or("?") {
@@ -202,19 +212,28 @@ pub fn run(ctx: &Ctx) {
                     for (li, len) in lens.iter().enumerate() {
                         for rep in 0..reps {
                             let counter = match (li + rep as usize) % 3 { 0 => 0, 1 => total - 1, _ => total / 2 };
-                            cases.push(FvCase { config: name.clone(), hash: h, levels: levels.clone(), counter, len: *len, tag: (li as u64) << 8 | rep as u64, dirty_trailer: None, accept: !(rep == 1 && li % 3 == 0), rep });
+                            cases.push(FvCase { config: name.clone(), hash: h, levels: levels.clone(), counter, len: *len, tag: (li as u64) << 8 | rep as u64, dirty_trailer: None, accept: !(rep == 1 && li % 3 == 0), rep, aux_budget: None });
+                        }
+                    }
+                    // with aux data: small, and large enough to cache the leaf level of the signing tree
+                    if si != 1 {
+                        let ht = levels[0].1;
+                        for (k, budget) in [(4 + n + (n << ht) / 2) as u32, (4 + n + (n << (ht + 1)) + 64) as u32, 60u32].iter().enumerate() {
+                            for counter in [0u64, total / 2, total - 1] {
+                                cases.push(FvCase { config: name.clone(), hash: h, levels: levels.clone(), counter, len: 2 * n + k, tag: 0xa0 + k as u64 + counter, dirty_trailer: None, accept: true, rep: 0, aux_budget: Some(*budget) });
+                            }
                         }
                     }
                     // negatives
                     if si == 0 {
                         for len in [0usize, 1, n - 1, n] {
-                            cases.push(FvCase { config: name.clone(), hash: h, levels: levels.clone(), counter: 1, len, tag: len as u64, dirty_trailer: None, accept: true, rep: 0 });
+                            cases.push(FvCase { config: name.clone(), hash: h, levels: levels.clone(), counter: 1, len, tag: len as u64, dirty_trailer: None, accept: true, rep: 0, aux_budget: None });
                         }
                         for i in 0..n {
                             if ctx.quick() && w != 4 && i % 5 != 0 {
                                 continue;
                             }
-                            cases.push(FvCase { config: name.clone(), hash: h, levels: levels.clone(), counter: 2, len: n + 9, tag: i as u64, dirty_trailer: Some(i), accept: true, rep: 0 });
+                            cases.push(FvCase { config: name.clone(), hash: h, levels: levels.clone(), counter: 2, len: n + 9, tag: i as u64, dirty_trailer: Some(i), accept: true, rep: 0, aux_budget: None });
                         }
                     }
                 }
